@@ -1,5 +1,5 @@
 """C04 - rewriting touches nothing but the matched spans."""
-from campaigns.life import Life
+from campaigns.life import Life, Locale
 
 PROPERTY = "C04"
 LEVEL = "exploration"
@@ -14,9 +14,11 @@ ASSUMPTIONS = ["template model of file content; filler never contains '@' or lin
                "surrogates / invalid UTF-8 are not generated (bumpver reads files as UTF-8 by design)"]
 COMPONENTS = {"bumpver cli update, rewrite": "real", "files": "real scratch directory", "clock": "simulated",
               "process locale": "real child interpreter for the ASCII-locale leg"}
-CAMPAIGNS = [Life("C04", quick=9000, thorough=400000, mode="bytes", sv_rate=0.05, vcs="none")]
+CAMPAIGNS = [Life("C04", quick=9000, thorough=400000, mode="bytes", sv_rate=0.05, vcs="none"),
+             Locale("C04", quick=320, thorough=16000)]
 
 
 def sanity_gate(tier, total):
-    need = ["real_update_ok", "file_regime_crlf", "file_regime_cr", "file_regime_mixed", "no_final_newline", "bom_file"]
+    need = ["real_update_ok", "file_regime_crlf", "file_regime_cr", "file_regime_mixed", "no_final_newline", "bom_file",
+            "child_locale_ascii", "non_ascii_content"]
     return ["probe %s never fired" % p for p in need if total["probes"].get(p, 0) == 0]
